@@ -38,6 +38,8 @@ SEGMENT_FAULTS = ['tfdt-plus', 'tfdt-minus', 'mfhd-plus', 'trun-offset', 'saio-o
 INIT_FAULTS = ['init-no-mvhd', 'init-no-trex', 'init-no-tenc']
 MANIFEST_FAULTS = ['timeline-remove-s', 'timeline-shift-t', 'no-availabilityStartTime', 'no-publishTime',
                    'no-minBufferTime', 'no-profiles', 'ast-changes-on-refresh']
+# faults in an MPD patch document (the refresh of a patch=1 session)
+PATCH_FAULTS = ['patch-no-mpdId', 'patch-original-publish-time', 'patch-selector-misses']
 
 
 def shards(tier: str) -> int:
@@ -131,6 +133,25 @@ class Adapter:
         if is_manifest:
             self.all_manifest_fetches += 1
             self.since_refresh = set()
+        if f in PATCH_FAULTS:
+            if not path.startswith('/patch'):
+                return
+            import re as _re
+            text = resp._body.decode('utf-8')
+            if f == 'patch-no-mpdId':
+                new, n = _re.subn(r'\smpdId="[^"]*"', '', text, count=1)
+                what = 'Patch@mpdId removed'
+            elif f == 'patch-original-publish-time':
+                m = _re.search(r'originalPublishTime="(\d{4})-', text)
+                new, n = (text.replace(m.group(0), f'originalPublishTime="{int(m.group(1)) - 4}-', 1), 1) if m else (text, 0)
+                what = 'Patch@originalPublishTime moved back four years'
+            else:
+                new, n = _re.subn(r'sel="/MPD/Period', 'sel="/MPD/Periodx', text, count=1)
+                what = 'first selector below /MPD/Period names an element that does not exist'
+            if n:
+                resp._body = new.encode()
+                self.applied = {'fault': f, 'url': url, 'what': what}
+            return
         if f in MANIFEST_FAULTS:
             if not is_manifest:
                 return
@@ -472,6 +493,7 @@ def gen_case(ctx: ShardCtx) -> dict:
 
 def run_shard(ctx: ShardCtx) -> ShardResult:
     from dlv.appenv import AppEnv
+    from dlv.workload import isoz as W_isoz
     from dlv.reach import Reach
     res = ShardResult()
     env = AppEnv()
@@ -521,6 +543,14 @@ def run_shard(ctx: ShardCtx) -> ShardResult:
                 if case['params'].get('timeline') != '1' or case['mode'] == 'odvod':
                     pool = [f for f in pool if not f.startswith('timeline-')]
                 fault = rng.choice(pool)
+            if not replayed and corrupted and rng.random() < 0.12:
+                # a patch=1 session that is long enough to refresh through the patch endpoint
+                case = {'stream': 'bbb', 'manifest': 'hand_made.mpd', 'mode': 'live',
+                        'params': {'start': W_isoz(datetime.datetime.fromisoformat(case['now']).replace(microsecond=0) -
+                                                    datetime.timedelta(seconds=rng.choice([200, 1000, 86400 * 3 + 17]))),
+                                   'depth': '16', 'mup': '4', 'timeline': '1', 'patch': '1'},
+                        'now': case['now'], 'duration': rng.choice([16, 24])}
+                fault = rng.choice(PATCH_FAULTS)
             after_refresh = False
             pick = rng.randrange(0, 4)
             if replayed:
@@ -590,7 +620,7 @@ def run_shard(ctx: ShardCtx) -> ShardResult:
             res.count('faults.detected')
             # located at the corrupted element?
             located = False
-            if fault in MANIFEST_FAULTS:
+            if fault in MANIFEST_FAULTS or fault in PATCH_FAULTS:
                 located = True       # any error of the manifest document counts for MPD-level faults
             else:
                 rng_lines = owner_lines(out['lines'], applied['url'])
